@@ -26,6 +26,21 @@ def handle : Drv.Handler
   | "vc-cmp", [a, b] => do
     let a ← a.nats?; let b ← b.nats?
     pure (ordStr (partialCmp a b))
+  -- the operators < <= > >= != : what `partial_cmp` / `==` say
+  | "vc-ops", [a, b] => do
+    let a ← a.nats?; let b ← b.nats?
+    let c := partialCmp a b
+    pure s!"({bstr (c == some .lt)} {bstr (c == some .lt || c == some .eq)} {bstr (c == some .gt)} {bstr (c == some .gt || c == some .eq)} {bstr (!veq a b)})"
+  | "o-vc-ops", [cab, eab, lt, le, gt, ge, ne] => do
+    let c ← ordOf? cab
+    let eab ← eab.str?; let lt ← lt.str?; let le ← le.str?; let gt ← gt.str?; let ge ← ge.str?; let ne ← ne.str?
+    let t := fun (b : Bool) => if b then "t" else "f"
+    pure (if lt != t (c == some .lt) then "lt-disagrees-with-partial_cmp"
+      else if le != t (c == some .lt || c == some .eq) then "le-disagrees-with-partial_cmp"
+      else if gt != t (c == some .gt) then "gt-disagrees-with-partial_cmp"
+      else if ge != t (c == some .gt || c == some .eq) then "ge-disagrees-with-partial_cmp"
+      else if ne == eab then "ne-disagrees-with-eq"
+      else "ok")
   | "vc-eq", [a, b] => do
     let a ← a.nats?; let b ← b.nats?
     pure (bstr (veq a b))
